@@ -578,8 +578,55 @@ def c02_8(ctx):
     return out
 
 
+def _schnorr_codec_cells(ctx):
+    """SchnorrSignature.serialize / parse evaluated with the point codec as a stand-in: a signature (R, s) is written as xonly(R) ‖ s as 32
+    big-endian bytes (s chosen with leading zero bytes and with all bytes different), and 64 different bytes parse to R = lift(bytes[0:32]),
+    s = int(bytes[32:64], big endian).  None when the two functions are outside the evaluator's subset."""
+    from sa.cells import ClassRef, Evaluator, FileStandIn, Obj, Raised, Undecided
+    out = []
+    spec_s, spec_p = "pecc:SchnorrSignature.serialize", "pecc:SchnorrSignature.parse"
+    mod, fn = rl.get(ctx, spec_s)
+    XO = bytes(range(1, 33))
+    hooks = {("S256Point", "xonly"): lambda p: p.attrs["xo"], ("S256Point", "parse"): lambda cls, b, *a, **k: Obj("pecc", "S256Point", {"xo": b, "x": 1}),
+             ("S256Point", "parse_xonly"): lambda cls, b, *a, **k: Obj("pecc", "S256Point", {"xo": b, "x": 1}),
+             ("SchnorrSignature", "__init__"): lambda o, r=None, s=None, *a, **k: o.attrs.update({"r": r, "s": s})}
+    try:
+        for s_val in (int.from_bytes(bytes(range(100, 132)), "big"), 0x0102, 1):
+            ctx.count("cells")
+            me = Obj("pecc", "SchnorrSignature", {"r": Obj("pecc", "S256Point", {"xo": XO, "x": 1}), "s": s_val})
+            try:
+                r = Evaluator(ctx.repo, method_hooks=hooks).call(spec_s, [], self_obj=me)
+            except Raised as x:
+                out.append(ctx.bad(spec_s, "serialize raises %s" % x.name, fn, mod, key="ser"))
+                break
+            if r != XO + s_val.to_bytes(32, "big"):
+                out.append(ctx.bad(spec_s, "a signature with s = %#x serialises to %s…, BIP340 is R.x(32) ‖ s(32 BE)" % (s_val, r.hex()[:24] if isinstance(r, bytes) else r), fn, mod, key="ser"))
+                break
+        else:
+            out.append(ctx.ok(spec_s, "R.x(32) ‖ s(32 BE)", fn, mod, key="ser"))
+        mod2, fn2 = rl.get(ctx, spec_p)
+        data = bytes(range(1, 65))
+        ctx.count("cells")
+        try:
+            r = Evaluator(ctx.repo, method_hooks=hooks, externals={"BytesIO": lambda b: FileStandIn(b)}).call(spec_p, [data], self_obj=ClassRef("pecc", "SchnorrSignature"))
+            ok = isinstance(r, Obj) and isinstance(r.attrs.get("r"), Obj) and r.attrs["r"].attrs.get("xo") == data[:32] and r.attrs.get("s") == int.from_bytes(data[32:], "big")
+            what = None if ok else "R is lifted from %s, s = %s" % (
+                "bytes[0:32]" if isinstance(r, Obj) and isinstance(r.attrs.get("r"), Obj) and r.attrs["r"].attrs.get("xo") == data[:32] else "other bytes",
+                "int(bytes[32:64], big endian)" if isinstance(r, Obj) and r.attrs.get("s") == int.from_bytes(data[32:], "big") else "something else")
+        except Raised as x:
+            ok, what = False, "raises %s" % x.name
+        out.append(ctx.ok(spec_p, "first 32 bytes → point R, next 32 bytes big-endian → s", fn2, mod2, key="parse") if ok else
+                   ctx.bad(spec_p, "decoder does not map bytes[0:32]→R (x-only lift) and bytes[32:64]→s (big endian): %s" % what, fn2, mod2, key="parse"))
+    except Undecided:
+        return None
+    return out
+
+
 def c02_9(ctx):
     """64-byte codec: R.x(32) ‖ s(32 BE) on both sides"""
+    ev = _schnorr_codec_cells(ctx)
+    if ev is not None:
+        return ev
     out = []
     mod, fn = rl.get(ctx, "pecc:SchnorrSignature.serialize")
     rets = [n for n in cfg_of(fn).returns() if n.ast is not None and n.ast.value is not None]
